@@ -1,4 +1,5 @@
 import PMV.Model.Logic3
+import PMV.Lemmas.Lanes
 /-
   C14 — equality, ordering and three-valued logic follow their truth tables under masks.
   Property theorems only.  Core Lean; no Mathlib.
@@ -293,6 +294,62 @@ theorem bool_plain_none (xs : List Cell) : boolCode false false false xs = none 
 theorem bool_plain_shapeless (c : Cell) :
     boolCode false false true [c] = if c.m then none else some c.v := by
   simp [boolCode]
+
+/-! #### lifting to n-dimensional objects: every broadcast pair of shapes, every set of axes
+
+The array-level operations are `Arr.map2` (NumPy broadcasting, `bidx`) of the element functions and
+`Arr.reduce` (lanes) of the lane kernels; `PMV.lanes_partition` shows that the lanes of a reduction
+partition the input for every shape and every set of axes. -/
+
+theorem tvl_and_nd (a b : Arr Cell) (sf af : Bool) (r : Arr Cell)
+    (hs : sf = true → ∀ i, (a.get i).m = false) (ha : af = true → ∀ i, (b.get i).m = false)
+    (h : Arr.map2 (tvlAndCode sf af) a b = some r) (i : Index) :
+    (r.get i).t3 = kand (a.get (bidx a.shape i)).t3 (b.get (bidx b.shape i)).t3 := by
+  simp only [Arr.map2, Option.map_eq_some_iff] at h
+  obtain ⟨out, _, rfl⟩ := h
+  exact tvl_and_table sf af _ _ (fun h => hs h _) (fun h => ha h _)
+
+theorem tvl_or_nd (a b : Arr Cell) (sf af : Bool) (r : Arr Cell)
+    (hs : sf = true → ∀ i, (a.get i).m = false) (ha : af = true → ∀ i, (b.get i).m = false)
+    (h : Arr.map2 (tvlOrCode sf af) a b = some r) (i : Index) :
+    (r.get i).t3 = kor (a.get (bidx a.shape i)).t3 (b.get (bidx b.shape i)).t3 := by
+  simp only [Arr.map2, Option.map_eq_some_iff] at h
+  obtain ⟨out, _, rfl⟩ := h
+  exact tvl_or_table sf af _ _ (fun h => hs h _) (fun h => ha h _)
+
+theorem strict_nd (op : Bool → Bool → Bool) (a b r : Arr Cell)
+    (h : Arr.map2 (strictCode op) a b = some r) (i : Index) :
+    (r.get i).t3 = strict2 op (a.get (bidx a.shape i)).t3 (b.get (bidx b.shape i)).t3 := by
+  simp only [Arr.map2, Option.map_eq_some_iff] at h
+  obtain ⟨out, _, rfl⟩ := h
+  exact strict_table op _ _
+
+/-- along any axes of an object of any shape: the output element at `o` is the Kleene
+    disjunction of its lane, and the lane holds exactly the input elements whose kept
+    coordinates are `o` (second conjunct, from `lanes_partition`). -/
+theorem tvl_any_nd (a : Arr Cell) (axes : List Nat) (o : Index) :
+    ((a.reduce (tvlAnyCode .array) axes).get o).t3 = kany ((a.lane axes o).map Cell.t3) ∧
+    (∀ i, Valid a.shape i → dropAxes axes i = o → a.get i ∈ a.lane axes o) :=
+  ⟨tvl_any_array _, fun i hi ho => ho ▸ mem_lane a axes i hi⟩
+
+theorem tvl_all_nd (a : Arr Cell) (axes : List Nat) (o : Index) :
+    ((a.reduce (tvlAllCode .array) axes).get o).t3 = kall ((a.lane axes o).map Cell.t3) ∧
+    (∀ i, Valid a.shape i → dropAxes axes i = o → a.get i ∈ a.lane axes o) :=
+  ⟨tvl_all_array _, fun i hi ho => ho ▸ mem_lane a axes i hi⟩
+
+theorem any_nd (a : Arr Cell) (axes : List Nat) (o : Index) :
+    ((a.reduce (anyCode .array) axes).get o).t3 = ignAny ((a.lane axes o).map Cell.t3) :=
+  any_array _
+
+theorem all_nd (a : Arr Cell) (axes : List Nat) (o : Index) :
+    ((a.reduce (allCode .array) axes).get o).t3 = ignAll ((a.lane axes o).map Cell.t3) :=
+  all_array _
+
+theorem eq_nd (a b : Arr ICell) (r : Arr Bool) (h : Arr.map2 eqCode a b = some r) (i : Index) :
+    r.get i = eqCode (a.get (bidx a.shape i)) (b.get (bidx b.shape i)) := by
+  simp only [Arr.map2, Option.map_eq_some_iff] at h
+  obtain ⟨out, _, rfl⟩ := h
+  rfl
 
 /-! #### non-vacuity -/
 example : (tvlAndCode false false ⟨true, true⟩ ⟨true, false⟩).t3 = .m := by decide
